@@ -624,13 +624,14 @@ type haRunStats struct {
 	BetweenAP      int
 	Crashes        int
 	CommitAfterCrh int // commits by an incarnation > 1
+	ObsPropose     int // observation lane: step=propose double votes across a restart
 }
 
 func (m *haMonitors) stats(cl *haCluster) haRunStats {
 	m.mu.Lock()
 	defer m.mu.Unlock()
 	s := haRunStats{Commits: len(m.commits), Rounds: len(m.decided), DigestOnly: m.digestOnly, CertsOK: m.certsOK, CertPairs: m.certPairs,
-		MinSlack: m.minSlack, VotesOnWire: m.votesOnWire, OwnVotes: m.ownVotes, ReEmitted: m.reEmitted, BetweenAP: m.betweenAP}
+		MinSlack: m.minSlack, VotesOnWire: m.votesOnWire, OwnVotes: m.ownVotes, ReEmitted: m.reEmitted, BetweenAP: m.betweenAP, ObsPropose: m.obsPropose}
 	per := map[basics.Round]bool{}
 	for _, c := range m.commits {
 		if c.Period > 0 {
